@@ -48,6 +48,9 @@ class Ctx:
     self.fresh = itertools.count()
     self.case_assumptions = []  # forced-concretisation case assumption
     self.forced = []            # log of forced concretisations
+    self.resolve_comparisons = False  # decide comparisons that the assumptions force (keeps terms polynomial)
+    self._resolved = {}
+    self._rsolver = None
 
   def assume(self, *conds):
     for c in conds:
@@ -84,6 +87,36 @@ class Ctx:
       if s.check() == z3.unsat:
         res = -1
     self._sign[k] = (d, res)  # keep d alive so the id is not reused
+    return res
+
+  def resolve(self, cond):
+    """cond -> True / False when forced by the assumptions in force *now*, else cond itself."""
+    k = cond.get_id()
+    if k in self._resolved:
+      return self._resolved[k][1]
+    if self._rsolver is None or self._rsolver[0] != (len(self.assumptions), len(self.case_assumptions)):
+      s = z3.Solver()
+      s.set('timeout', 3000)
+      s.add(*self.assumptions)
+      s.add(*self.case_assumptions)
+      self._rsolver = ((len(self.assumptions), len(self.case_assumptions)), s)
+      self._resolved = {}
+    s = self._rsolver[1]
+    res = cond
+    self.side_queries += 1
+    s.push()
+    s.add(z3.Not(cond))
+    if s.check() == z3.unsat:
+      res = True
+    s.pop()
+    if res is cond:
+      self.side_queries += 1
+      s.push()
+      s.add(cond)
+      if s.check() == z3.unsat:
+        res = False
+      s.pop()
+    self._resolved[k] = (cond, res)
     return res
 
   def forced_value(self, term, candidates):
@@ -327,16 +360,21 @@ def _cmp_plain(op, a, b):
             'eq': a == b, 'ne': a != b}[op]
   a, b = Z(a), Z(b)
   if op == 'ge':
-    return a >= b
-  if op == 'gt':
-    return a > b
-  if op == 'le':
-    return a <= b
-  if op == 'lt':
-    return a < b
-  if op == 'eq':
-    return a == b
-  return a != b
+    r = a >= b
+  elif op == 'gt':
+    r = a > b
+  elif op == 'le':
+    r = a <= b
+  elif op == 'lt':
+    r = a < b
+  elif op == 'eq':
+    r = a == b
+  else:
+    r = a != b
+  c = CTX
+  if c.resolve_comparisons:
+    return c.resolve(r)
+  return r
 
 
 _FLIP = {'ge': 'le', 'gt': 'lt', 'le': 'ge', 'lt': 'gt', 'eq': 'eq', 'ne': 'ne'}
@@ -577,7 +615,7 @@ def scalar(a):
   return a
 
 
-def reduce(op, a, axes, keepdims=False):
+def reduce(op, a, axes, keepdims=False, empty=None):
   a = np.asarray(a, dtype=object)
   if axes is None:
     axes = list(range(a.ndim))
@@ -586,7 +624,12 @@ def reduce(op, a, axes, keepdims=False):
   for ax in reversed(axes):
     n = res.shape[ax]
     if n == 0:
-      raise HarnessError('reduce over empty axis')
+      if empty is None:
+        raise HarnessError('reduce over empty axis')
+      shp = list(res.shape)
+      del shp[ax]
+      res = full(shp, empty)
+      continue
     acc = np.take(res, 0, axis=ax)
     for i in range(1, n):
       acc = op(acc, np.take(res, i, axis=ax))
